@@ -296,8 +296,8 @@ func c06Reparse(tok Token, N int, lenBytes int) {
 	vfReach("end")
 }
 
-func HarnessC06_ParamFmt()  { c06Reparse(TDS_PARAMFMT, c07N(13, 18), 2) }
-func HarnessC06_ParamFmt2() { c06Reparse(TDS_PARAMFMT2, c07N(18, 22), 4) }
+func HarnessC06_ParamFmt()  { c06Reparse(TDS_PARAMFMT, c07N(13, 15), 2) }
+func HarnessC06_ParamFmt2() { c06Reparse(TDS_PARAMFMT2, c07N(18, 20), 4) }
 
 // server-only: row formats from an independent encoder (TDS_ROWFMT has a
 // 2-byte length and 1-byte column status, TDS_ROWFMT2 a 4-byte length, 4-byte
